@@ -298,7 +298,7 @@ pub fn gen(rng: &mut Rng, tier: &str, dist: &mut Dist) -> Vec<String> {
     let plan: Vec<(u8, Vec<(u8, u32)>, usize)> = if thorough {
         vec![(1, vec![], 0), (4, vec![], 0), (10, vec![], 0), (1, vec![(3, 1)], 2), (4, vec![(3, 4), (3, 1)], 2), (1, vec![], 1), (10, vec![], 1), (0, vec![], 0)]
     } else {
-        vec![(1, vec![], 0), (4, vec![(3, 2)], 2), (10, vec![], 1)]
+        vec![(1, vec![], 0), (4, vec![(3, 2)], 2), (10, vec![], 1), (1, vec![(3, 1)], 2)]
     };
     for (check, filters, t) in plan {
         if let Some((f, d)) = tiny_xz(rng, check, filters, texts[t].to_vec(), false) {
@@ -330,7 +330,7 @@ pub fn gen(rng: &mut Rng, tier: &str, dist: &mut Dist) -> Vec<String> {
         }
     }
     // ---- random damage of small files over the option space ----
-    let n = if thorough { 40000 } else { 4000 };
+    let n = if thorough { 80000 } else { 8000 };
     for i in 0..n {
         let sizes = gen_sizes(rng);
         if i % 3 != 2 {
@@ -386,7 +386,7 @@ pub fn gen(rng: &mut Rng, tier: &str, dist: &mut Dist) -> Vec<String> {
         }
     }
     // ---- strings that are not the format at all ----
-    let m = if thorough { 8000 } else { 1000 };
+    let m = if thorough { 16000 } else { 2000 };
     for _ in 0..m {
         let len = rng.below(80) as usize;
         let mut v: Vec<u8> = (0..len).map(|_| if rng.chance(1, 4) { 0 } else { rng.next() as u8 }).collect();
